@@ -14,30 +14,35 @@ The generated functions take the current contents `b` of the `*buffer` receiver 
 namespace Ivg.Gen.Tie
 open Ivg Ivg.Num Ivg.Gen Ivg.Gen.Code
 
+tolerant
 /-- `(*buffer).encodeColor1` (encode/buffer.go) appends the model's `Enc.encodeColor1`. -/
 theorem encodeColor1_code_tie (b : Bytes) (c : Color) :
     encode_buffer_encodeColor1 b (colorOf c) = b ++ Enc.encodeColor1 c := by
   simp only [encode_buffer_encodeColor1, color_Encode1_code_tie, Enc.encodeColor1]
   cases c.encode1 <;> simp [enc1Of]
 
+tolerant
 /-- `(*buffer).encodeColor2` (encode/buffer.go) appends the model's `Enc.encodeColor2`. -/
 theorem encodeColor2_code_tie (b : Bytes) (c : Color) :
     encode_buffer_encodeColor2 b (colorOf c) = b ++ Enc.encodeColor2 c := by
   simp only [encode_buffer_encodeColor2, color_Encode2_code_tie, Enc.encodeColor2]
   rcases c.encode2 with _ | ⟨x, y⟩ <;> simp [enc2Of, Go.arrGet]
 
+tolerant
 /-- `(*buffer).encodeColor3Direct` (encode/buffer.go) appends the model's `Enc.encodeColor3Direct`. -/
 theorem encodeColor3Direct_code_tie (b : Bytes) (c : Color) :
     encode_buffer_encodeColor3Direct b (colorOf c) = b ++ Enc.encodeColor3Direct c := by
   simp only [encode_buffer_encodeColor3Direct, color_Encode3Direct_code_tie, Enc.encodeColor3Direct]
   rcases c.encode3Direct with _ | ⟨x, y, z⟩ <;> simp [enc3Of, Go.arrGet]
 
+tolerant
 /-- `(*buffer).encodeColor4` (encode/buffer.go) appends the model's `Enc.encodeColor4`. -/
 theorem encodeColor4_code_tie (b : Bytes) (c : Color) :
     encode_buffer_encodeColor4 b (colorOf c) = b ++ Enc.encodeColor4 c := by
   simp only [encode_buffer_encodeColor4, color_Encode4_code_tie, Enc.encodeColor4]
   rcases c.encode4 with _ | ⟨x, y, z, w⟩ <;> simp [enc4Of, Go.arrGet]
 
+tolerant
 /-- `(*buffer).encodeColor3Indirect` (encode/buffer.go) appends the model's `Enc.encodeColor3Indirect`. -/
 theorem encodeColor3Indirect_code_tie (b : Bytes) (c : Color) :
     encode_buffer_encodeColor3Indirect b (colorOf c) = b ++ Enc.encodeColor3Indirect c := by
@@ -50,29 +55,35 @@ A Go `Color` whose `typ` is none of the four declared `ColorType`s cannot be con
 fields are unexported), but the generated functions are total on `ivg_Color`; there every `EncodeN` answers
 `ok = false`, so each encoder appends its fallback bytes (what the model does for `none`). -/
 
+tolerant
 theorem encAux_badTyp (t : UInt8) (h : 3 < t) : t ≠ 0 ∧ t ≠ 1 ∧ t ≠ 2 ∧ t ≠ 3 := by
   refine ⟨?_, ?_, ?_, ?_⟩ <;> rintro rfl <;> exact absurd h (by decide)
 
+tolerant
 theorem encodeColor1_code_tie_badTyp (b : Bytes) (c : ivg_Color) (h : 3 < c.typ) :
     encode_buffer_encodeColor1 b c = b ++ [0x00] := by
   obtain ⟨h0, h1, h2, _⟩ := encAux_badTyp _ h
   simp [encode_buffer_encodeColor1, ivg_Color_Encode1, h0, h1, h2]
 
+tolerant
 theorem encodeColor2_code_tie_badTyp (b : Bytes) (c : ivg_Color) (h : 3 < c.typ) :
     encode_buffer_encodeColor2 b c = b ++ [0x00, 0x0f] := by
   obtain ⟨h0, _, _, _⟩ := encAux_badTyp _ h
   simp [encode_buffer_encodeColor2, ivg_Color_Encode2, ivg_Color_Is2, h0]
 
+tolerant
 theorem encodeColor3Direct_code_tie_badTyp (b : Bytes) (c : ivg_Color) (h : 3 < c.typ) :
     encode_buffer_encodeColor3Direct b c = b ++ [0, 0, 0] := by
   obtain ⟨h0, _, _, _⟩ := encAux_badTyp _ h
   simp [encode_buffer_encodeColor3Direct, ivg_Color_Encode3Direct, ivg_Color_Is3, h0]
 
+tolerant
 theorem encodeColor4_code_tie_badTyp (b : Bytes) (c : ivg_Color) (h : 3 < c.typ) :
     encode_buffer_encodeColor4 b c = b ++ [0, 0, 0, 0xff] := by
   obtain ⟨h0, _, _, _⟩ := encAux_badTyp _ h
   simp [encode_buffer_encodeColor4, ivg_Color_Encode4, h0]
 
+tolerant
 theorem encodeColor3Indirect_code_tie_badTyp (b : Bytes) (c : ivg_Color) (h : 3 < c.typ) :
     encode_buffer_encodeColor3Indirect b c = b ++ [0, 0, 0] := by
   obtain ⟨_, _, _, h3⟩ := encAux_badTyp _ h
